@@ -113,3 +113,21 @@ fn inject(words: &[u32; NW]) -> ChaCha8Rng {
     }
     rng
 }
+
+/// same word stream again from the start (second run of a determinism harness)
+pub fn rewind_rng() {
+    unsafe {
+        RNGW.pos = 0;
+    }
+}
+/// `ChaCha8Rng::from_seed` for determinism harnesses: the word stream is a function of the harness, not redrawn
+#[cfg(not(test))]
+pub fn seed_same_stream(_seed: [u8; 32]) -> ChaCha8Rng {
+    rewind_rng();
+    unsafe { std::mem::zeroed() }
+}
+#[cfg(test)]
+pub fn seed_same_stream(seed: [u8; 32]) -> ChaCha8Rng {
+    use rand::SeedableRng;
+    ChaCha8Rng::from_seed(seed)
+}
